@@ -1,4 +1,4 @@
-import JunoModel.C05.ProofsPrune
+import JunoModel.C05.ProofsPrune2
 /-!
 C05 — property theorems (statements only; proofs are in `Proofs*.lean`).
 
@@ -196,6 +196,23 @@ theorem prune_crash_consistent (W : Nat) (fx : Fixes) (c : List Block) (hwf : Wf
     ∃ F, F0 ≤ F ∧ F ≤ e ∧ PCoh blockHashLag c F (exec W fx n (.prune e) ft).1.disk ∧
       (ft = .none → F = e ∧ (exec W fx n (.prune e) ft).2 = .ok) :=
   prune_exec_images fx hwf hp hF0 he ft
+
+/-- Storing the next block on an image pruned below `F` (the batch of `Store` / `Finalise`, filter
+writes included) gives the image of the extended chain pruned below the same `F`. -/
+theorem store_on_pruned_image (c : List Block) (F : Nat) (d : Disk) (b : Block) (ws : List Write)
+    (hwf' : WfChain (c ++ [b])) (hp : PCoh blockHashLag c F d) (hF : F ≤ c.length)
+    (hnd : b.txs.Nodup) (hfh : c.find? (fun x => x.hash = b.hash) = none)
+    (hft : ∀ t ∈ b.txs, lookupTx c t = none) (haux : OnlyAux ws) :
+    PCoh blockHashLag (c ++ [b]) F (applyBatch d (blockWrites b ++ ws)) :=
+  pcoh_append hwf' hp hF hnd hfh hft haux
+
+/-- Reverting the head of an image pruned below `F` (head not pruned) gives the image of the chain
+without its head, pruned below the same `F`. -/
+theorem revert_on_pruned_image (c' : List Block) (last : Block) (F : Nat) (d : Disk) (ws : List Write)
+    (hwf : WfChain (c' ++ [last])) (hp : PCoh blockHashLag (c' ++ [last]) F d) (hF : F ≤ c'.length)
+    (haux : OnlyAux ws) :
+    PCoh blockHashLag c' F (applyBatch d (revertWrites c'.length last last last ++ ws)) :=
+  pcoh_prefix hwf hp hF haux
 
 /-- The first prune of a node that has never pruned starts from a coherent image. -/
 theorem coherent_is_unpruned (c : List Block) (d : Disk) (h : Coh c d) : PCoh blockHashLag c 0 d :=
